@@ -10,6 +10,7 @@ import (
 	"net"
 	"os"
 	"path/filepath"
+	"strings"
 	"sync"
 	"time"
 
@@ -168,11 +169,17 @@ func start(opts Options) (*App, error) {
 
 	defer release()
 
-	svc := map[string]any{"host": host, "port": mainPort}
+	// heimdall joins host and port with a colon: an IPv6 address is configured in brackets
+	cfgHost := host
+	if strings.Contains(host, ":") {
+		cfgHost = "[" + host + "]"
+	}
+
+	svc := map[string]any{"host": cfgHost, "port": mainPort}
 
 	cfg := map[string]any{
 		"serve": map[string]any{
-			"management": map[string]any{"host": host, "port": mgmtPort},
+			"management": map[string]any{"host": cfgHost, "port": mgmtPort},
 		},
 		"log":     map[string]any{"level": "error"},
 		"tracing": map[string]any{"enabled": false},
